@@ -88,6 +88,52 @@ func c13EscapeSet(r *Run) {
 	}
 	r.Check(encSet["quote"], rule, "writeStrictASCII escapes the quote character in use", esc.Pos(), "c == quote (the parameter)", "the character that is escaped must be the quote the run is delimited with — with another style selected the run would end early")
 	r.Check(encSet[`'\\'`], rule, "writeStrictASCII escapes the backslash", esc.Pos(), "c == '\\\\'", "an unescaped backslash would swallow the next character")
+	// the backslash and the byte it escapes are adjacent in the output: on every path from the escape
+	// write the next effect on the builder is the write of the byte itself — no separator, no opening
+	// or closing quote in between (a backslash written before the run is opened lands outside it)
+	{
+		isRawWrite := func(c *ssa.Call) bool {
+			if calleeOf(c).Static == nil || calleeOf(c).Static.Name() != "WriteByte" {
+				return false
+			}
+			a := c.Call.Args[len(c.Call.Args)-1]
+			_, isIdx := a.(*ssa.Index)
+			return isIdx && !strings.Contains(render(a), "0123456789")
+		}
+		bad := ""
+		seen := map[*ssa.BasicBlock]bool{}
+		var walk func(b *ssa.BasicBlock, from int)
+		walk = func(b *ssa.BasicBlock, from int) {
+			for i := from; i < len(b.Instrs); i++ {
+				switch in := b.Instrs[i].(type) {
+				case *ssa.Call:
+					if !isRawWrite(in) && bad == "" {
+						bad = r.W.Pos(in.Pos()) + " " + render(in)
+					}
+					return
+				case *ssa.Return:
+					if bad == "" {
+						bad = r.W.Pos(in.Pos()) + " return"
+					}
+					return
+				case *ssa.Store, *ssa.Go, *ssa.Defer:
+					_ = in
+				}
+			}
+			for _, s := range b.Succs {
+				if !seen[s] {
+					seen[s] = true
+					walk(s, 0)
+				}
+			}
+		}
+		for i, in := range esc.Block().Instrs {
+			if in == esc {
+				walk(esc.Block(), i+1)
+			}
+		}
+		r.Check(bad == "", rule, "writeStrictASCII: the escaping backslash is followed at once by the byte it escapes", esc.Pos(), "next builder effect after WriteByte('\\\\') is WriteByte(s[i])", "something else reaches the output between the backslash and the escaped byte ("+bad+"): the backslash then escapes the wrong character or lands outside the quoted run")
+	}
 	// parser: characters tested inside a quoted run
 	parSet := map[string]bool{}
 	for _, b := range par.Blocks {
